@@ -138,6 +138,10 @@ func RoutePatternMatch(path, pattern string, cfg ...Config) bool {
 	if path == "" {
 		path = "/"
 	}
+	// with UnescapePath the route is matched against the percent-decoded path, as it is for a request
+	if config.UnescapePath {
+		path = string(unescapePathInPlace([]byte(path)))
+	}
 
 	// Cannot have an empty pattern
 	if pattern == "" {
